@@ -103,6 +103,20 @@ def t_runs(n, what):
     return ('list', [leaf, t_nest(n // 4, leaf=leaf)])
 
 
+def t_deep_key(n, kind, commented):
+    """a dict whose keys are tuples / frozensets nested n levels deep (sorted on request)"""
+    def key(seed):
+        t = ('commented', ('int', seed), 'c') if commented else ('int', seed)
+        for _ in range(n):
+            t = (kind, [t])
+        return t
+    return ('dict', [(key(2), ('int', 0)), (key(1), ('int', 1))])
+
+
+for _k in ('tuple', 'frozenset'):
+    for _c in (False, True):
+        FAMILIES['deep-%s-keys%s' % (_k, '-commented' if _c else '')] = (
+            lambda n, k=_k, c=_c: t_deep_key(n, k, c), [4, 8, 16, 32])
 for _w in ('cont', 'hi', 'nul', 'quote', 'bs', 'nbsp', 'emoji', 'nl', 'tab', 'combining'):
     FAMILIES['runs-of-%s' % _w] = (lambda n, w=_w: t_runs(n, w), [20, 40, 80, 160])
 for _pat in ('c', 't', 'a'):
@@ -114,20 +128,23 @@ for _kind in ('list', 'tuple', 'dictval', 'call', 'callkw'):
                 continue        # the open finding: see commented-dict-values-at-every-level
             FAMILIES['chain-%s-%s-%d' % (_kind, _wrap, _ar)] = (
                 lambda n, k=_kind, w=_wrap, a=_ar: t_chain(n, k, w, a), [5, 10, 20, 40])
-CFGS = [dict(), dict(width=20), dict(width=200, ribbon_width=200)]
+CFGS = [dict(), dict(width=20, sort_dict_keys=True), dict(width=200, ribbon_width=200)]
 
 
 def run_one(term, cfg):
     from prettyprinter import pformat
     import warnings
-    v, sx = valgen.build(term)
+    box = {}
 
     def go():
+        # building the value asks the package for the sorted order of the keys (valgen): part of the measured
+        # work, and never outside the step budget
+        box['v'], box['sx'] = valgen.build(term)
         with warnings.catch_warnings():
             warnings.simplefilter('ignore')
-            return pformat(v, **cfg)
+            return pformat(box['v'], **cfg)
     text, total, pops = stepcount.measure(go, limit=BUDGET)
-    return text, total, pops, sx
+    return text, total, pops, box['sx']
 
 
 def main(tier):
